@@ -31,6 +31,17 @@ let () = iter_lines (fun line ->
       | Res.Ok im -> Printf.sprintf "OK %d %d %s" (int_of_z im.Vp8lSpec.i_w) (int_of_z im.Vp8lSpec.i_h) (fnv_px im.Vp8lSpec.i_px)
       | _ -> "ERR" in
     Printf.printf "I %s S %s\n" r r
+  | ["replan"; hex] ->
+    (* recover the plan the stream is the emission of; check it against the proved theorem's hypothesis *)
+    let bytes = zbytes_of_hex hex in
+    (match Vp8lTrace.trace_decode bytes with
+     | Res.Ok p ->
+       let wf = Vp8lWf.wf_planb p in
+       let same = Vp8lTrace.prefix_then_zeros (Vp8lEmit.emit p) bytes in
+       let sm = Vp8lEmit.sem p in
+       Printf.printf "R wf=%d emit=%d OK %d %d %s\n" (if wf then 1 else 0) (if same then 1 else 0)
+         (int_of_z sm.Vp8lSpec.i_w) (int_of_z sm.Vp8lSpec.i_h) (fnv_px sm.Vp8lSpec.i_px)
+     | _ -> print_endline "R ERR")
   | ["trace"; hex] ->
     (match Vp8lSpec.decode_header (zbytes_of_hex hex) with
      | Res.Ok d ->
